@@ -149,6 +149,22 @@ def startsWithCount : List Tok → Bool
   | .count _ :: _ => true
   | _ => false
 
+/-- merging with the empty dimensionality changes nothing -/
+theorem dim_mul_nil (u : Dim) : Dim.mul u [] = u := by
+  cases u <;> simp [Dim.mul, Dim.merge]
+
+/-- **scaling commutes with division**: `(k · s) / j` is the same amount of the same substance as
+`(k / j) · s` — a substance divided by a number keeps, and divides, the amount it already carries -/
+theorem div_scales_amount (s : Substance) (a k j : ℚ) (ha : s.amount.value = .rational a) (hj : j ≠ 0) :
+    Substance.div (Substance.mul s ⟨.rational k, []⟩) ⟨.rational j, []⟩ =
+      .ok (Substance.mul s ⟨.rational (k / j), []⟩) := by
+  have hv : a * k * (1 / j) = a * (k / j) := by field_simp
+  simp only [Substance.div, Substance.mul]
+  rw [number_div_exact (Number.mul s.amount ⟨.rational k, []⟩) ⟨.rational j, []⟩ (a * k) j
+        (by simp [Number.mul, ha, Numeric.mul]) rfl hj]
+  have hv' : a * k * j⁻¹ = a * (k / j) := by rw [← hv]; simp [one_div]
+  simp [Number.mul, ha, Numeric.mul, Bind.bind, Outcome.bind, hv']
+
 theorem formulaToks_no_count (cs : List (String × Option Nat)) : startsWithCount (formulaToks cs) = false := by
   cases cs with
   | nil => rfl
